@@ -19,7 +19,9 @@ use std::collections::{BTreeMap, BTreeSet};
 use std::rc::Rc;
 use std::time::Instant;
 
-pub const FAMILIES: [&str; 10] = [
+pub const FAMILIES: [&str; 12] = [
+    "dense-layers-wide",
+    "dense-layers-deep",
     "deep-chain-short-sibling",
     "skipped-chain-behind-ephemeral",
     "chain-output",
@@ -43,6 +45,8 @@ pub const CASCADES: [&str; 9] = [
     "abort-middle",
 ];
 pub const ORDERS: [&str; 3] = ["fifo", "wide", "lifo"];
+/// wall-clock cap for the cases of the family dense-layers-deep (unchanged engine: < 1 s each)
+pub const DEEP_CAP_S: u64 = 60;
 
 fn def(name: String, kind: Kind) -> Def {
     Def { universe: vec![name], kind, constant: vec![false], ignores: vec![vec![]] }
@@ -164,6 +168,33 @@ fn build_family(family: &str, n: usize) -> (Vec<Def>, GraphState, usize, usize) 
                 prev = cur;
             }
             (defs, g, first, last)
+        }
+        "dense-layers-wide" | "dense-layers-deep" => {
+            // an Always root, then layers in which every job depends on EVERY job of the previous layer.
+            // wide: three layers of up to 500 jobs - the number of dependencies between two layers (w*w)
+            //       exceeds the number of jobs many times over: signal queues and cascades scale with
+            //       edges, not with jobs.
+            // deep: up to 40 layers of 12 jobs, a third of the inner ones Ephemeral - the number of PATHS
+            //       through the Ephemerals is exponential in the depth (4^38); anything that walks per path
+            //       instead of per job never comes back.
+            let (w, layers) = if family == "dense-layers-wide" { ((n / 3).clamp(2, 500), 3) } else { (12, (n / 12).clamp(2, 40)) };
+            let root = add(&mut defs, &mut g, Kind::Always);
+            let mut prev: Vec<usize> = vec![root];
+            let mut last = root;
+            for l in 0..layers {
+                let mut cur = Vec::new();
+                for i in 0..w {
+                    let kind = if l == layers - 1 || l == 0 || i % 3 != 1 { Kind::Output } else { Kind::Ephemeral };
+                    let j = add(&mut defs, &mut g, kind);
+                    for u in prev.iter() {
+                        g.edges.insert((j, *u), vec![]);
+                    }
+                    last = j;
+                    cur.push(j);
+                }
+                prev = cur;
+            }
+            (defs, g, root, last)
         }
         "fan-in" => {
             // n-1 roots (mixed kinds) feeding one Output
@@ -669,7 +700,10 @@ pub fn check_c19(thorough: bool, seed: u64, threads: usize) -> i32 {
                     match child.try_wait() {
                         Ok(Some(st)) => break Some(st),
                         Ok(None) => {
-                            if started.elapsed().as_secs() > cap_s {
+                            // the deep dense family takes well under a second on the unchanged engine; there a case
+                            // that does not come back IS the finding (work that grows with the number of paths)
+                            let cap_here = if f == "dense-layers-deep" { DEEP_CAP_S } else { cap_s };
+                            if started.elapsed().as_secs() > cap_here {
                                 let _ = child.kill();
                                 let _ = child.wait();
                                 timed_out = true;
@@ -681,7 +715,10 @@ pub fn check_c19(thorough: bool, seed: u64, threads: usize) -> i32 {
                     }
                 };
                 let mut v = json!({"family": f, "size": sz, "cascade": c, "order": o});
-                if timed_out {
+                if timed_out && f == "dense-layers-deep" {
+                    v["evaluations"] = json!(1);
+                    v["problems"] = json!([format!("no result within {} s (the unchanged engine needs less than one): the work grows with the number of paths through the graph, not with the number of jobs", DEEP_CAP_S)]);
+                } else if timed_out {
                     v["inconclusive"] = json!(format!("exceeded the {} s cap", cap_s));
                 } else {
                     let mut outs = String::new();
@@ -758,7 +795,10 @@ pub fn check_c19(thorough: bool, seed: u64, threads: usize) -> i32 {
                         let dir = crate::verif_dir_pub().join("replays");
                         let _ = std::fs::create_dir_all(&dir);
                         let path = dir.join(format!("C19-{}-{}-{}-{}.json", f, sz, c, o));
-                        let rf = json!({"property": "C19", "c19case": [f, sz.to_string(), c, o, (hash2(seed, *i as u64) >> 1).to_string()], "message": msg});
+                        let mut rf = json!({"property": "C19", "c19case": [f, sz.to_string(), c, o, (hash2(seed, *i as u64) >> 1).to_string()], "message": msg});
+                        if f == "dense-layers-deep" {
+                            rf["timeout_s"] = json!(DEEP_CAP_S);
+                        }
                         let _ = std::fs::write(&path, serde_json::to_string_pretty(&rf).unwrap());
                         println!("VIOLATION property=C19 replay={}", path.display());
                         println!("  {} size {} cascade {} order {}: {}", f, sz, c, o, msg);
@@ -822,6 +862,47 @@ pub fn replay_c19(v: &serde_json::Value, quiet: bool) -> i32 {
         return 2;
     }
     let exe = std::env::current_exe().unwrap();
+    if let Some(t) = v.get("timeout_s").and_then(|t| t.as_u64()) {
+        // a case whose violation may be "does not come back": replay under the same cap
+        let mut child = match std::process::Command::new(&exe).arg("c19case").args(&args).stdout(std::process::Stdio::piped()).stderr(std::process::Stdio::null()).spawn() {
+            Ok(c) => c,
+            Err(_) => return 2,
+        };
+        let started = Instant::now();
+        loop {
+            match child.try_wait() {
+                Ok(Some(_)) => break,
+                Ok(None) => {
+                    if started.elapsed().as_secs() > t {
+                        let _ = child.kill();
+                        let _ = child.wait();
+                        if !quiet {
+                            println!("no result within {} s", t);
+                            println!("VIOLATION property=C19 replay=<this file>");
+                        }
+                        return 1;
+                    }
+                    std::thread::sleep(std::time::Duration::from_millis(20));
+                }
+                Err(_) => return 2,
+            }
+        }
+        let mut s = String::new();
+        if let Some(mut so) = child.stdout.take() {
+            use std::io::Read;
+            let _ = so.read_to_string(&mut s);
+        }
+        let has_problem = serde_json::from_str::<serde_json::Value>(s.trim())
+            .map(|x| x["problems"].as_array().map(|a| !a.is_empty()).unwrap_or(false))
+            .unwrap_or(true);
+        if !quiet {
+            println!("{}", s.trim());
+            if has_problem {
+                println!("VIOLATION property=C19 replay=<this file>");
+            }
+        }
+        return if has_problem { 1 } else { 0 };
+    }
     let out = std::process::Command::new(exe).arg("c19case").args(&args).output();
     match out {
         Ok(o) => {
